@@ -53,3 +53,6 @@ def run(rep: Report, repo: Repo, tier: str) -> None:
     from .c16 import rule_cli_defaults
     with rep.isolated():
         rule_cli_defaults(rep, repo, "C13-R13")
+    # "processed are the non-excluded files": the file list is filtered by the exclusion match only
+    with rep.isolated():
+        fsrules.rule_file_list_filters(rep, repo, "C13-R14")
